@@ -757,9 +757,9 @@ search:
 			if t.IndirectElem() {
 				*(*unsafe.Pointer)(e) = nil
 			} else if t.Elem.PtrBytes != 0 {
-				memclrHasPointers(e, t.Elem.Size_)
+				memclrHasPointers(e, uintptr(t.ValueSize))
 			} else {
-				memclrNoHeapPointers(e, t.Elem.Size_)
+				memclrNoHeapPointers(e, uintptr(t.ValueSize))
 			}
 			b.tophash[i] = emptyOne
 			// If the bucket now ends in a bunch of emptyOne states,
@@ -1258,7 +1258,9 @@ func evacuate(t *maptype, h *hmap, oldbucket uintptr) {
 				if t.IndirectElem() {
 					*(*unsafe.Pointer)(dst.e) = *(*unsafe.Pointer)(e)
 				} else {
-					typedmemmove(t.Elem, dst.e, e)
+					// Copy the whole slot: for func-typed elems the slot holds a
+					// two-word closure while t.Elem.Size_ is one word.
+					memmove(dst.e, e, uintptr(t.ValueSize))
 				}
 				dst.i++
 				// These updates might push these pointers past the end of the
@@ -1495,7 +1497,7 @@ func moveToBmap(t *maptype, h *hmap, dst *bmap, pos int, src *bmap) (*bmap, int)
 		if t.IndirectElem() {
 			*(*unsafe.Pointer)(dstEle) = *(*unsafe.Pointer)(srcEle)
 		} else {
-			typedmemmove(t.Elem, dstEle, srcEle)
+			memmove(dstEle, srcEle, uintptr(t.ValueSize)) // whole slot, see evacuate
 		}
 		pos++
 		h.count++
@@ -1593,7 +1595,11 @@ func mapclone2(t *maptype, src *hmap) *hmap {
 					srcEle = *((*unsafe.Pointer)(srcEle))
 				}
 				dstEle := mapassign(t, dst, srcK)
-				typedmemmove(t.Elem, dstEle, srcEle)
+				if t.IndirectElem() {
+					typedmemmove(t.Elem, dstEle, srcEle)
+				} else {
+					memmove(dstEle, srcEle, uintptr(t.ValueSize)) // whole slot, see evacuate
+				}
 			}
 			srcBmap = srcBmap.overflow(t)
 		}
